@@ -13,17 +13,31 @@ import (
 )
 
 // uniformGrid is {2^k-1, 2^k, 2^k+1 : 0 <= k <= 62} intersected with [1, 2^62+1].
-func uniformGrid() []uint64 {
+func uniformGrid(reduced bool) []uint64 {
 	seen := map[uint64]bool{}
 	var g []uint64
-	for k := 0; k <= 62; k++ {
-		for _, d := range []int64{-1, 0, 1} {
-			v := uint64(int64(uint64(1)<<uint(k)) + d)
-			if v >= 1 && !seen[v] {
-				seen[v] = true
-				g = append(g, v)
-			}
+	add := func(v uint64) {
+		if v >= 1 && !seen[v] {
+			seen[v] = true
+			g = append(g, v)
 		}
+	}
+	ks := []int{}
+	for k := 0; k <= 62; k++ {
+		ks = append(ks, k)
+	}
+	if reduced {
+		ks = []int{0, 1, 2, 3, 8, 16, 31, 32, 33, 62}
+	}
+	for _, k := range ks {
+		for _, d := range []int64{-1, 0, 1} {
+			add(uint64(int64(uint64(1)<<uint(k)) + d))
+		}
+	}
+	// Sizes a log can sign although no real tree has them: around 2^63 and
+	// the largest uint64 (int64 wrap-around, sign confusion).
+	for _, v := range []uint64{1<<63 - 1, 1 << 63, 1<<63 + 1, 1<<63 + 5, ^uint64(0) - 1, ^uint64(0)} {
+		add(v)
 	}
 	return g
 }
@@ -36,10 +50,16 @@ func uniformGrid() []uint64 {
 // ground truth (same family and not smaller); for C08 every honest step s -> n
 // must be accepted.
 func uniformTable(run *ev.Run, prop string, states *int, trans *int64) {
+	uniformTableTier(run, prop, false, states, trans)
+}
+
+// uniformTableTier: reduced = the quick tier's grid.
+func uniformTableTier(run *ev.Run, prop string, reduced bool, states *int, trans *int64) {
 	u := uni.New(ev.Seed(), 2, nil)
 	la := wh.LogCfg{Origin: logA(), Key: u.K1}
 	fam := map[string]*ref6962.Uniform{"A": ref6962.NewUniform([]byte("uniform-leaf-A")), "B": ref6962.NewUniform([]byte("uniform-leaf-B"))}
-	grid := uniformGrid()
+	grid := uniformGrid(reduced)
+	submitted := append([]uint64{0}, grid...)
 	cp := func(f string, n uint64) ([]byte, wh.Meta) {
 		r := fam[f].Root(n)
 		text := uni.Body(la.Origin, n, r[:])
@@ -71,7 +91,7 @@ func uniformTable(run *ev.Run, prop string, states *int, trans *int64) {
 				}
 				e := mk()
 				st := wh.MState{Has: true, Size: s, Root: seedMeta.Root}
-				for _, n := range grid {
+				for _, n := range submitted {
 					for _, f := range []string{"A", "B"} {
 						c, meta := cp(f, n)
 						olds := []uint64{s}
@@ -168,7 +188,7 @@ func uniformTable(run *ev.Run, prop string, states *int, trans *int64) {
 	*trans += nTrans.Load()
 	run.Set("uniform_grid_sizes", len(grid))
 	run.Set("uniform_grid_transitions", nTrans.Load())
-	run.Set("uniform_grid", "stored and submitted sizes on {2^k-1, 2^k, 2^k+1 : k <= 62} (all pairs, exact - not sampled), two mutually inconsistent uniform-leaf tree families, proofs computed exactly from perfect-subtree hashes")
+	run.Set("uniform_grid", fmt.Sprintf("stored and submitted sizes on {2^k-1, 2^k, 2^k+1 : k in %s} plus 2^63-1, 2^63, 2^63+1, 2^63+5, 2^64-2, 2^64-1 (submitted also 0): all pairs, exact - not sampled; two mutually inconsistent uniform-leaf tree families, proofs computed exactly from perfect-subtree hashes", map[bool]string{true: "{0,1,2,3,8,16,31,32,33,62}", false: "0..62"}[reduced]))
 }
 
 func gridOffset(s uint64) int {
